@@ -15,5 +15,8 @@ PROP = {
   "saml2_tophat.response:AuthnResponse.get_subject",
   "saml2_tophat.response:StatusResponse._verify"
  ],
+ "bounded": [
+  "time_parse"
+ ],
  "level": "proof"
 }
